@@ -331,6 +331,7 @@ func init() {
 			{Name: "readers", Race: true, QShards: 2, TShards: 4, Run: c08Readers},
 			{Name: "large", QShards: 4, TShards: 8, Run: func(c *Ctx) { alignLarge(c, alignOpts{validity: true}, c08Gen) }},
 			{Name: "thin", QShards: 3, TShards: 5, Run: func(c *Ctx) { alignThin(c, alignOpts{validity: true}, -2) }},
+			{Name: "needles", QShards: 4, TShards: 8, Run: alignNeedles},
 			{Name: "srcviews", Run: srcViewUnit(alignViewCalls(-2))},
 			{Name: "parallel", Race: true, Run: alignParallel},
 			firstCallUnit(firstAlign("C08")),
@@ -1567,4 +1568,68 @@ func easyPair(i int, x, tail []byte) (a, b []byte) {
 		return x, append([]byte{}, x...)
 	}
 	return append(append(append([]byte{}, tail...), x...), tail...), x
+}
+
+// alignNeedles: Local on tables of 2^20 cells and more that hold ONE positive
+// cell — a single matching pair in two otherwise unrelated sequences — placed
+// where a table that is scanned in blocks, or by several workers, has its
+// seams: at k/d of the flat table (d = 2, 4, 8; thorough also 3, 5, 6, 7, 16),
+// rounded up and down, one cell before and after. The answer is known in closed
+// form: one Match at that place, with that score.
+func alignNeedles(c *Ctx) {
+	la, lb := 1024, 1024
+	cells := (la + 1) * (lb + 1)
+	ds := []int{2, 4, 8}
+	if c.Thorough {
+		ds = []int{2, 3, 4, 5, 6, 7, 8, 16}
+	}
+	seen := map[int]bool{}
+	var flats []int
+	for _, d := range ds {
+		for kq := 1; kq < d; kq++ {
+			for _, q := range []int{(cells + d - 1) / d, cells / d} {
+				for delta := -1; delta <= 1; delta++ {
+					f := kq*q + delta
+					if !seen[f] && f > 0 && f < cells {
+						seen[f] = true
+						flats = append(flats, f)
+					}
+				}
+			}
+		}
+	}
+	m := align.SubstitutionMatrix{}
+	for _, x := range []byte("ACG") {
+		for _, y := range []byte("ACG") {
+			m[[2]byte{x, y}] = -1
+		}
+		m[[2]byte{x, gapB}], m[[2]byte{gapB, x}] = -1, -1
+	}
+	m[[2]byte{'G', 'G'}] = 3
+	m[[2]byte{gapB, gapB}] = 0
+	for i, f := range flats {
+		c.Case(int64(i), func(k *K) {
+			for _, transposed := range []bool{false, true} {
+				ai, bi := f/(lb+1), f%(lb+1)
+				if transposed {
+					ai, bi = bi, ai
+				}
+				if ai == 0 || bi == 0 {
+					continue
+				}
+				a, b := bytes.Repeat([]byte("A"), la), bytes.Repeat([]byte("C"), lb)
+				a[ai-1], b[bi-1] = 'G', 'G'
+				k.Input("needle_cell", fmt.Sprintf("row %d, column %d of a %d x %d table (flat index %d)", ai, bi, la+1, lb+1, f))
+				steps, sa, sb, score := align.Local(a, b, m)
+				if len(steps) != 1 || steps[0] != align.Match || sa != ai-1 || sb != bi-1 || score != 3 {
+					k.Failf("local-needle", "Local on two unrelated sequences of %d and %d symbols with one matching pair at (%d, %d): got %d steps from (%d, %d) scoring %v, want one Match from (%d, %d) scoring 3", la, lb, ai-1, bi-1, len(steps), sa, sb, score, ai-1, bi-1)
+					return
+				}
+				k.Count("needle_tables", 1)
+				k.Count("large_table_cases", 1)
+				k.Evals(1)
+			}
+			k.Nontrivial([]byte(fmt.Sprint("needle", f)))
+		})
+	}
 }
